@@ -278,7 +278,7 @@ def apalache_inductive(module_path, cinit="ConstInit", init="Init", ind_init="In
     ok = True
     log_all = ""
     for args in (["--init=" + init, "--length=0"], ["--init=" + ind_init, "--length=1"]):
-        cmd = ["apalache-mc", "check", "--out-dir=" + outd, "--cinit=" + cinit, "--inv=" + inv] + args + [os.path.basename(module_path)]
+        cmd = ["apalache-mc", "check", "--out-dir=" + outd] + (["--cinit=" + cinit] if cinit else []) + ["--inv=" + inv] + args + [os.path.basename(module_path)]
         try:
             p = subprocess.run(cmd, cwd=os.path.dirname(module_path), stdout=subprocess.PIPE, stderr=subprocess.STDOUT, text=True, timeout=timeout)
         except subprocess.TimeoutExpired:
